@@ -74,7 +74,9 @@ Section Rx.
   Proof.
     intros Hcap Hwf Hx Hy g H. unfold garbler_rx_result in H.
     pose proof (recv_all_refines rcap Hcap (repeat TLabel (noutputs (cc c)))
-                  (r_init (mkT bytes frags eofdata 0)) (RInv_init rcap _)) as R.
+                  (r_init (mkT bytes frags eofdata 0))
+                  ltac:(apply Forall_forall; intros ? Ht; apply repeat_spec in Ht; subst; exact I)
+                  (RInv_init rcap _)) as R.
     cbv zeta in R. destruct R as (_ & _ & R). rewrite all_init in R. cbn [t_stream] in R.
     destruct (recv_all rcap (repeat TLabel (noutputs (cc c))) (r_init (mkT bytes frags eofdata 0)))
       as [r' [vs|]] eqn:RA; cbn [snd] in *; [|discriminate].
@@ -98,7 +100,9 @@ End Rx.
   Proof.
     intros Hcap Hshort. unfold garbler_rx_result.
     pose proof (recv_all_refines rcap Hcap (repeat TLabel (noutputs (cc c)))
-                  (r_init (mkT bytes frags eofdata 0)) (RInv_init rcap _)) as R.
+                  (r_init (mkT bytes frags eofdata 0))
+                  ltac:(apply Forall_forall; intros ? Ht; apply repeat_spec in Ht; subst; exact I)
+                  (RInv_init rcap _)) as R.
     cbv zeta in R. destruct R as (_ & _ & R). rewrite all_init in R. cbn [t_stream] in R.
     destruct (recv_all rcap (repeat TLabel (noutputs (cc c))) (r_init (mkT bytes frags eofdata 0)))
       as [r' [vs|]] eqn:RA; cbn [snd] in *; [|reflexivity].
@@ -117,7 +121,7 @@ End Rx.
   Proof.
     intros Hcap H. unfold garbler_rx_query in H.
     pose proof (recv_all_refines rcap Hcap [TU32; TU32]
-                  (r_init (mkT bytes frags eofdata 0)) (RInv_init rcap _)) as R.
+                  (r_init (mkT bytes frags eofdata 0)) ltac:(repeat constructor) (RInv_init rcap _)) as R.
     cbv zeta in R. destruct R as (_ & _ & R). rewrite all_init in R. cbn [t_stream] in R.
     destruct (recv_all rcap [TU32; TU32] (r_init (mkT bytes frags eofdata 0))) as [r' [vs|]] eqn:RA;
       cbn [snd] in *; [|discriminate].
